@@ -91,11 +91,12 @@ def show_items(items):
 
 class Case:
     """files: [(stem, text)], queries: [(K, stem, line, col, question)], ws, table {(stem, tag): (sl, sc, el, ec)}"""
-    def __init__(self, files, queries, ws, table):
+    def __init__(self, files, queries, ws, table, opened=()):
         self.files, self.queries, self.ws, self.table = files, queries, ws, table
+        self.opened = frozenset(opened)         # stems that are open in the editor (`+Stem` on the wire)
 
     def line(self):
-        f = ";".join("%s=%s" % (s, ".".join(str(ord(c)) for c in t)) for s, t in self.files)
+        f = ";".join("%s%s=%s" % ("+" if s in self.opened else "", s, ".".join(str(ord(c)) for c in t)) for s, t in self.files)
         q = ";".join("%s,%s,%d,%d,%s" % x for x in self.queries)
         t = ";".join("%s:%d:%d:%d:%d:%d" % ((k[0], k[1]) + tuple(v)) for k, v in sorted(self.table.items()))
         return "|".join([f, q, show_ws(self.ws), t])
@@ -103,9 +104,12 @@ class Case:
     @staticmethod
     def parse(line):
         f, q, w, t = line.split("|")
-        files = []
+        files, opened = [], []
         for x in [x for x in f.split(";") if x]:
             s, cps = x.split("=")
+            if s.startswith("+"):
+                s = s[1:]
+                opened.append(s)
             files.append((s, "".join(chr(int(c)) for c in cps.split(".")) if cps else ""))
         queries = []
         for x in [x for x in q.split(";") if x]:
@@ -115,7 +119,7 @@ class Case:
         for x in [x for x in t.split(";") if x]:
             s, tag, a, b, c, d = x.split(":")
             table[(s, int(tag))] = (int(a), int(b), int(c), int(d))
-        return Case(files, queries, parse_ws(w), table)
+        return Case(files, queries, parse_ws(w), table, opened)
 
 
 # =============================================================================================
@@ -499,10 +503,10 @@ def shrinker(line):
     if n > 1:
         h = n // 2
         for part in (qs[:h], qs[h:]):
-            yield Case(case.files, part, case.ws, case.table).line()
+            yield Case(case.files, part, case.ws, case.table, case.opened).line()
         if n <= 12:
             for i in range(n):
-                yield Case(case.files, qs[:i] + qs[i + 1:], case.ws, case.table).line()
+                yield Case(case.files, qs[:i] + qs[i + 1:], case.ws, case.table, case.opened).line()
     else:
         used = set(q[1] for q in qs)
         for e in case.ws:
@@ -510,12 +514,14 @@ def shrinker(line):
                 continue
             ws = [x for x in case.ws if x is not e]
             yield Case([f for f in case.files if f[0] != e.name], qs, ws,
-                       {k: v for k, v in case.table.items() if k[0] != e.name}).line()
+                       {k: v for k, v in case.table.items() if k[0] != e.name}, case.opened).line()
+    if case.opened:
+        yield Case(case.files, case.queries, case.ws, case.table).line()
 
 
 def describe(line):
     case = Case.parse(line)
-    return {"files": {s + ".god": t for s, t in case.files},
+    return {"files": {s + ".god": t for s, t in case.files}, "open_in_editor": sorted(case.opened),
             "queries": ["%s %s.god line %d col %d  [%s]" % q for q in case.queries[:40]],
             "n_queries": len(case.queries)}
 
@@ -654,6 +660,8 @@ class Gen:
                 vs = []
 
                 def vname(pool):
+                    if r.random() < 0.07:
+                        return vary(r, r.choice(names), 0.5)            # named like a class or module of the workspace
                     if visible and r.random() < 0.25:
                         return vary(r, r.choice(visible), 0.4)          # shadows a member
                     if vs and r.random() < 0.1:
@@ -956,7 +964,14 @@ class Renderer:
     def run(self):
         for e in self.ws:
             self.render_entity(e)
-        return Case(self.files, self.queries, self.ws, self.table)
+        # some files are open in the editor; the queries come in an order that mixes the files (a document may be analysed as
+        # somebody's dependency before it is asked about itself)
+        r = self.r if hasattr(self, "r") else self.rng
+        opened = [s for s, _ in self.files if r.random() < 0.3]
+        qs = list(self.queries)
+        if r.random() < 0.5:
+            r.shuffle(qs)
+        return Case(self.files, qs, self.ws, self.table, opened)
 
 
 def gen_case(rng, kinds):
